@@ -149,6 +149,9 @@ func Parse(s string) (*DPoP, error) {
 	if jwkIsPrivateKey(headers.JWK()) {
 		return nil, fmt.Errorf("%w: invalid jwk header", ErrInvalidDPoP)
 	}
+	if err := jwx.ValidateKeyForAlgorithm(headers.Algorithm(), headers.JWK()); err != nil {
+		return nil, errors.Join(ErrInvalidDPoP, err)
+	}
 	token, err := jwt.ParseString(s, jwt.WithKey(headers.Algorithm(), headers.JWK()))
 	if err != nil {
 		return nil, errors.Join(ErrInvalidDPoP, err)
